@@ -1,6 +1,11 @@
-"""C11 - one-dimensional conduction conserves energy exactly."""
+"""C11 - one-dimensional conduction conserves energy exactly.
+
+Additional tie (composition B, lean/UwgVerif/Model/SurfFlux.lean + Props/SurfFluxEnergy.lean): the whole
+Element.SurfFlux = season partition (C18) + conduction step (C11), fractionised real routine vs `surfFlux`,
+with the energy statement of the composition as oracle on the real results."""
 import json
 from fractions import Fraction as F
+from types import SimpleNamespace as NS
 
 import fracexec
 from fracexec import frac_str, frac_list
@@ -9,7 +14,13 @@ MODULE = 'UwgVerif.Props.C11'
 THEOREMS = ['Uwg.C11.conduction_solves', 'Uwg.C11.energy_flux_bc', 'Uwg.C11.energy_deep_bc',
             'Uwg.C11.steady_fixed_flux', 'Uwg.C11.steady_fixed_deep', 'Uwg.C11.uniform_fixed',
             'Uwg.C11.energy_sequence', 'Uwg.solve_sound', 'Uwg.pivots_of_mrows',
-            'Uwg.pivots_of_sdd', 'Uwg.sat_unique_solve']
+            'Uwg.pivots_of_sdd', 'Uwg.sat_unique_solve',
+            # composition B: Element.SurfFlux = season partition + conduction step
+            'Uwg.SurfFluxEnergy.surfflux_energy_flux_bc', 'Uwg.SurfFluxEnergy.surfflux_energy_deep_bc',
+            'Uwg.SurfFluxEnergy.surfflux_offseason_bare', 'Uwg.SurfFluxEnergy.surfflux_isothermal',
+            'Uwg.SurfFluxEnergy.surfflux_returns', 'Uwg.SurfFluxEnergy.surfFlux_ok_inv',
+            'Uwg.SurfFluxEnergy.partition_flux']
+SURF_MODULE = 'UwgVerif.Props.SurfFluxEnergy'
 
 
 def rq(rng, lo, hi, den=None):
@@ -98,10 +109,304 @@ def case_json(cs):
             for k, v in cs.items()}
 
 
+# ----------------------------------------------------------------------------- composition B: Element.SurfFlux
+SURF_V = ('alb', 'vc', 'g', 'tr', 'solRec', 'infra', 'pres', 'deepT', 'va', 'gf', 'tf', 'wd', 'lv', 'dt', 'hum',
+          'tref', 'wind', 'bc', 'intF')
+SEASONS = ('before', 'in', 'after', 'wrap')
+
+
+def gen_surf(rng, orient=None, bck=None, season=None, kind=None, n=None):
+    """One call of Element.SurfFlux: orientation road / roof (horizontal without grass/tree attributes) / wall,
+    boundary kind, season case, layering."""
+    orient = orient or rng.choice(['road', 'roof', 'wall'])
+    bck = bck or rng.choice(['flux', 'deep'])
+    season = season or rng.choice(('before', 'in', 'in', 'in', 'after', 'wrap'))
+    kind = kind or rng.choice(['random'] * 5 + ['isothermal'])
+    n = n if n is not None else rng.choice([2, 2, 3, 4, 5, 7, 10, 12])
+    cs = dict(orient=orient, bck=bck, season=season, kind=kind)
+    cs['d'] = [rq(rng, 0.005, 0.5, 1000) or F(1, 100) for _ in range(n)]
+    cs['k'] = [rq(rng, 0.03, 3.0, 100) or F(1) for _ in range(n)]
+    cs['c'] = [rq(rng, 1e4, 3e6, 1) or F(10 ** 6) for _ in range(n)]
+    cs['t'] = [rq(rng, 250, 330, 10) for _ in range(n)]
+    if season == 'before':
+        s = rng.randint(2, 12); e = rng.randint(s, 12); m = rng.randint(1, s - 1)
+    elif season == 'in':
+        s = rng.randint(1, 12); e = rng.randint(s, 12); m = rng.randint(s, e)
+    elif season == 'after':
+        e = rng.randint(1, 11); s = rng.randint(1, e); m = rng.randint(e + 1, 12)
+    else:
+        e = rng.randint(1, 11); s = rng.randint(e + 1, 12); m = rng.randint(1, 12)
+    cs.update(m=m, s=s, e=e)
+    cs.update(alb=rq(rng, 0.05, 0.6, 100), vc=rq(rng, 0, 1, 100), g=rq(rng, 0, 0.5, 100), tr=rq(rng, 0, 0.5, 100),
+              solRec=rng.choice([F(0), rq(rng, 0, 900, 1), rq(rng, 0, 900, 10)]), infra=rq(rng, -120, 60, 10),
+              pres=rq(rng, 80000, 103000, 1), deepT=rq(rng, 270, 300, 10), va=rq(rng, 0.1, 0.4, 100),
+              gf=rq(rng, 0.2, 0.7, 100), tf=rq(rng, 0.3, 0.8, 100), wd=F(1000), lv=F(2500800),
+              dt=F(rng.choice([1, 30, 60, 300, 600, 900, 3600])), hum=rq(rng, 0, 0.03, 10000),
+              tref=rq(rng, 250, 320, 10), wind=rq(rng, 0, 9, 10),
+              intF=rng.choice([F(0), rq(rng, -80, 80, 10)]))
+    cs['bc'] = F(1) if bck == 'flux' else F(2)
+    if kind == 'isothermal':
+        T = cs['tref']
+        cs['t'] = [T] * n
+        cs['solRec'], cs['infra'] = F(0), F(0)
+        if bck == 'flux':
+            cs['intF'] = F(0)
+        else:
+            cs['deepT'] = T
+    return cs
+
+
+def surf_edge_cases(rng):
+    """Error branches and boundary-kind tolerance of the real routine."""
+    out = []
+    for n in (0, 1):
+        out.append(gen_surf(rng, n=n, kind='random'))
+    c = gen_surf(rng, kind='random'); c['tref'] = F(0); out.append(c)                       # ZeroDivisionError
+    c = gen_surf(rng, kind='random'); c['hum'] = F(-1000000, 1607858); out.append(c)        # ZeroDivisionError
+    c = gen_surf(rng, kind='random', n=1); c['tref'] = F(0); out.append(c)                  # zerodiv before index
+    for bc in (F(3), F(0), F(3, 2), F(1) + F(1, 10 ** 9), F(2) - F(1, 10 ** 9)):           # refused kinds
+        c = gen_surf(rng, kind='random'); c['bc'] = bc; c['bck'] = 'other'; out.append(c)
+    for bc, b in ((F(1) + F(1, 10 ** 11), 'flux'), (F(1) - F(1, 10 ** 11), 'flux'), (F(2) + F(1, 10 ** 11), 'deep')):
+        c = gen_surf(rng, kind='random', bck=b); c['bc'] = bc; out.append(c)                # within is_near_zero
+    c = gen_surf(rng, kind='random', n=1); c['bc'] = F(3); out.append(c)                    # index before kind
+    return out
+
+
+def make_surf_element(pkg, cs):
+    Element, Material = pkg.element.Element, pkg.material.Material
+    mats = [Material(k, c, 'm') for k, c in zip(cs['k'], cs['c'])]
+    el = Element(cs['alb'], F(9, 10), list(cs['d']), mats, cs['vc'], F(293), 0 if cs['orient'] == 'wall' else 1, 'x')
+    if cs['orient'] == 'road':
+        el.grasscoverage, el.treecoverage = cs['g'], cs['tr']
+    if el.waterStorage != 0:
+        raise LiveEvaporation('Element.__init__ sets waterStorage = %r' % (el.waterStorage,))
+    return el
+
+
+class LiveEvaporation(Exception):
+    pass
+
+
+def water_storage_scan(repo):
+    """The model follows the else branch of the waterStorage test: sound while nothing in uwg assigns the
+    attribute except Element.__init__ (the constant 0) and the (then dead) branch of SurfFlux itself."""
+    import ast
+    import os
+    bad = []
+    for fn in sorted(os.listdir(os.path.join(repo, 'uwg'))):
+        if not fn.endswith('.py'):
+            continue
+        tree = ast.parse(open(os.path.join(repo, 'uwg', fn), 'rb').read().decode('utf-8', 'ignore'))
+        for fdef in [x for x in ast.walk(tree) if isinstance(x, (ast.FunctionDef, ast.Module))]:
+            for node in (ast.walk(fdef) if isinstance(fdef, ast.FunctionDef) else []):
+                tg = []
+                if isinstance(node, ast.Assign):
+                    tg = node.targets
+                elif isinstance(node, (ast.AugAssign, ast.AnnAssign)):
+                    tg = [node.target]
+                for t in tg:
+                    if isinstance(t, ast.Attribute) and t.attr == 'waterStorage':
+                        ok = fn == 'element.py' and (
+                            fdef.name == 'SurfFlux' or
+                            (fdef.name == '__init__' and isinstance(node, ast.Assign) and
+                             isinstance(node.value, ast.Constant) and node.value.value == 0))
+                        if not ok:
+                            bad.append('%s:%d %s assigns waterStorage' % (fn, node.lineno, fdef.name))
+        if 'setattr' in open(os.path.join(repo, 'uwg', fn), 'rb').read().decode('utf-8', 'ignore') and \
+                'waterStorage' in open(os.path.join(repo, 'uwg', fn), 'rb').read().decode('utf-8', 'ignore') and \
+                fn != 'element.py':
+            bad.append('%s mentions waterStorage and setattr' % fn)
+    return bad
+
+
+def surf_call(el, cs):
+    """Run the REAL (fractionised) Element.SurfFlux on the element's current state."""
+    el.layerTemp = list(cs['t'])
+    el.solRec, el.infra = cs['solRec'], cs['infra']
+    forc = NS(pres=cs['pres'], prec=F(0), deepTemp=cs['deepT'])
+    par = NS(vegStart=cs['s'], vegEnd=cs['e'], vegAlbedo=cs['va'], grassFLat=cs['gf'], treeFLat=cs['tf'],
+             colburn=F(1), waterDens=cs['wd'], cp=F(1004), lv=cs['lv'], wgmax=F(1, 200))
+    sim = NS(month=cs['m'], dt=cs['dt'])
+    try:
+        el.SurfFlux(forc, par, sim, cs['hum'], cs['tref'], cs['wind'], cs['bc'], cs['intF'])
+    except ZeroDivisionError:
+        return 'err zerodiv'
+    except IndexError:
+        return 'err index'
+    except (AssertionError, AttributeError, TypeError, ValueError):
+        raise
+    except Exception as ex:  # noqa - Conduction's own "Error during conduction calculation"
+        return 'err fatal' if 'conduction' in str(ex).lower() else 'err ' + type(ex).__name__
+    return dict(aero=el.aeroCond, solAbs=el.solAbs, lat=el.lat, sens=el.sens, flux=el.flux, T_ext=el.T_ext,
+                T_int=el.T_int, x=list(el.layerTemp))
+
+
+def surf_line(cs):
+    return 'surfflux hor=%d road=%d m=%d s=%d e=%d v=%s d=%s k=%s c=%s t=%s' % (
+        0 if cs['orient'] == 'wall' else 1, 1 if cs['orient'] == 'road' else 0, cs['m'], cs['s'], cs['e'],
+        frac_list([cs[k] for k in SURF_V]), frac_list(cs['d']), frac_list(cs['k']), frac_list(cs['c']),
+        frac_list(cs['t']))
+
+
+def surf_ans(r):
+    if isinstance(r, str):
+        return r
+    return 'ok %s %s' % (frac_list([r['aero'], r['solAbs'], r['lat'], r['sens'], r['flux'], r['T_ext'], r['T_int']]),
+                         frac_list(r['x']))
+
+
+def surf_oracle(cs, r):
+    """The statements of Props/SurfFluxEnergy.lean evaluated on a result of the real SurfFlux."""
+    d, k, c, t, x = cs['d'], cs['k'], cs['c'], cs['t'], r['x']
+    n = len(d)
+    net = r['solAbs'] + cs['infra'] - r['lat'] - r['sens']
+    if r['flux'] != net:
+        return 'flux %s != solAbs + infra - lat - sens %s' % (float(r['flux']), float(net))
+    if r['T_ext'] != x[0] or r['T_int'] != x[-1]:
+        return 'T_ext / T_int are not the first / last new layer temperature'
+    if cs['orient'] == 'wall' and r['lat'] != 0:
+        return 'vertical element with latent heat %s' % r['lat']
+    if cs['bc'] == 1 or cs['bck'] == 'flux':
+        lhs = sum(c[j] * d[j] * (x[j] - t[j]) for j in range(n))
+        rhs = cs['dt'] * (net + cs['intF'])
+        if lhs != rhs:
+            return 'stored-energy change %s != dt*(solAbs + infra - lat - sens + intFlux) %s' % (float(lhs), float(rhs))
+    else:
+        if x[-1] != cs['deepT']:
+            return 'T_int %s != deep temperature %s' % (x[-1], cs['deepT'])
+        g = 2 / (d[n - 2] / k[n - 2] + d[n - 1] / k[n - 1])
+        deep = g * (F(1, 2) * (x[n - 2] - x[n - 1]) + F(1, 2) * (t[n - 2] - t[n - 1]))
+        lhs = sum(c[j] * d[j] * (x[j] - t[j]) for j in range(n - 1))
+        rhs = cs['dt'] * (net - deep)
+        if lhs != rhs:
+            return 'stored-energy change above the deep layer %s != dt*(net flux - deep flux) %s' % (float(lhs), float(rhs))
+    if cs['kind'] == 'isothermal' and (list(x) != list(t) or r['flux'] != 0):
+        return 'isothermal element without radiation changed (flux %s)' % r['flux']
+    return None
+
+
+def surf_twin(rng, cs):
+    """Same call with other vegetation data: must give the same result off season / for a wall."""
+    tw = dict(cs)
+    tw.update(vc=rq(rng, 0, 1, 100), g=rq(rng, 0, 0.5, 100), tr=rq(rng, 0, 0.5, 100), va=rq(rng, 0.1, 0.4, 100),
+              gf=rq(rng, 0.2, 0.7, 100), tf=rq(rng, 0.3, 0.8, 100))
+    return tw
+
+
+def run_surfflux(chk, pkg):
+    try:
+        run_surfflux_(chk, pkg)
+    except LiveEvaporation as ex:
+        chk.corr_problems.append({'tie': 'Element.SurfFlux~surfFlux', 'case': None, 'impl': str(ex),
+                                  'model': 'surfFlux follows the else branch (waterStorage = 0)'})
+
+
+def run_surfflux_(chk, pkg):
+    rng = chk.rng
+    import core
+    wbad = water_storage_scan(core.REPO)
+    if wbad:
+        chk.corr_problems.append({'tie': 'waterStorage-scan', 'case': '; '.join(wbad[:3]),
+                                  'impl': 'waterStorage can become non-zero: the evaporation branch of SurfFlux is live',
+                                  'model': 'surfFlux follows the else branch (eg = 0)'})
+    chk.direct('waterStorage-scan(AST of uwg/*.py)', 1, 1,
+               'no assignment to an attribute waterStorage outside Element.__init__ (= 0) and SurfFlux itself',
+               mismatches=len(wbad))
+    big = chk.tier == 'thorough'
+    cases = [gen_surf(rng, orient=o, bck=b, season=s) for o in ('road', 'roof', 'wall') for b in ('flux', 'deep')
+             for s in SEASONS for _ in range(3 if not big else 12)]
+    cases += [gen_surf(rng, orient=o, bck=b, kind='isothermal') for o in ('road', 'roof', 'wall')
+              for b in ('flux', 'deep') for _ in range(3)]
+    cases += [gen_surf(rng) for _ in range(120 if not big else 2000)]
+    cases += surf_edge_cases(rng)
+    results = [surf_call(make_surf_element(pkg, cs), cs) for cs in cases]
+
+    def cls(line, impl):
+        a = dict(w.split('=', 1) for w in line.split()[1:])
+        m, s, e = int(a['m']), int(a['s']), int(a['e'])
+        o = 'wall' if a['hor'] == '0' else 'road' if a['road'] == '1' else 'roof'
+        bc = a['v'].strip('[]').split(';')[17]
+        return '%s/%s/%s' % (o, 'bc1' if bc == '1/1' else 'bc2' if bc == '2/1' else 'bc~',
+                             'off' if (m < s or m > e) else 'in')
+    chk.correspond('Element.SurfFlux~surfFlux', 'C11', [(surf_line(cs), surf_ans(r)) for cs, r in zip(cases, results)],
+                   rule='fractionised REAL Element.SurfFlux (horizontal road with grass/tree attributes, horizontal '
+                        'roof-like, vertical wall; boundary kinds 1, 2, within / outside the is_near_zero tolerance, '
+                        'refused kinds; months before / inside / after the season and empty (wrap-around) seasons; '
+                        '2..12 layers, 0 and 1 layer, zero density denominator) vs Lean surfFlux: exact aeroCond, '
+                        'solAbs, lat, sens, flux, T_ext, T_int and all new layer temperatures, or the error class',
+                   classify=cls)
+    bad, nor, br = 0, 0, {}
+    for cs, r in zip(cases, results):
+        if isinstance(r, str):
+            continue
+        nor += 1
+        key = '%s/%s/%s' % (cs['orient'], cs['bck'], cs['kind'])
+        br[key] = br.get(key, 0) + 1
+        msg = surf_oracle(cs, r)
+        if msg is None and (cs['orient'] == 'wall' or cs['m'] < cs['s'] or cs['m'] > cs['e']):
+            tw = surf_twin(rng, cs)
+            r2 = surf_call(make_surf_element(pkg, tw), tw)
+            if isinstance(r2, str) or any(r2[q] != r[q] for q in ('solAbs', 'lat', 'sens', 'flux', 'x', 'T_ext', 'T_int')):
+                msg = 'off season / vertical, yet other vegetation parameters change the result: %s vs %s' % (
+                    r2 if isinstance(r2, str) else [float(v) for v in r2['x'][:2]], [float(v) for v in r['x'][:2]])
+                cs = dict(cs, twin_vegetation={q: str(tw[q]) for q in ('vc', 'g', 'tr', 'va', 'gf', 'tf')})
+        if msg:
+            bad += 1
+            if bad <= 3:
+                chk.violation('impl-violation', 'energy / bare-ground / isothermal oracle on Element.SurfFlux',
+                              case=case_json(cs), observed=msg,
+                              expected='stored heat changes by dt*(solAbs + infra - lat - sens + intFlux) (kind 1) / '
+                                       'deep-layer balance (kind 2); off season independent of vegetation; '
+                                       'isothermal unchanged')
+    chk.direct('energy-oracle(Element.SurfFlux)', nor, nor,
+               'statements of Props/SurfFluxEnergy.lean evaluated on the exact results of the real SurfFlux: '
+               'flux = solAbs + infra - lat - sens; stored-heat change = dt*(net flux + intFlux) for kind 1, '
+               'deep-layer balance and T_int = deepTemp for kind 2; T_ext/T_int = first/last layer; wall: lat = 0; '
+               'off season / wall: a twin with other vegetation data gives identical results; isothermal cases '
+               'unchanged', mismatches=bad, branches=br)
+    # histories on ONE Element: months cross the season, timestep / boundary / radiation vary, the layer
+    # temperatures are carried by the object itself from call to call (as in simulate)
+    nseq = 12 if not big else 120
+    pairs, sbad, nst = [], 0, 0
+    for _ in range(nseq):
+        base = gen_surf(rng, kind='random', n=rng.choice([2, 3, 5, 8]))
+        el = make_surf_element(pkg, base)
+        cur = list(base['t'])
+        for step in range(rng.randint(3, 6)):
+            cs = gen_surf(rng, orient=base['orient'], kind='random', n=len(base['d']))
+            for q in ('d', 'k', 'c', 'alb', 'vc', 'g', 'tr'):
+                cs[q] = base[q]
+            cs['t'] = cur
+            cs['s'], cs['e'] = base['s'], base['e']
+            cs['m'] = rng.randint(1, 12)
+            r = surf_call(el, cs)
+            pairs.append((surf_line(cs), surf_ans(r)))
+            nst += 1
+            if isinstance(r, str):
+                break
+            msg = surf_oracle(cs, r)
+            if msg:
+                sbad += 1
+                if sbad <= 2:
+                    chk.violation('impl-violation', 'energy oracle on a history of SurfFlux calls on one Element (step %d)' % step,
+                                  case=case_json(cs), observed=msg, expected='exact energy balance at every call')
+            cur = list(el.layerTemp)
+    chk.correspond('Element.SurfFlux(history on one object)~surfFlux', 'C11', pairs,
+                   rule='3-6 successive SurfFlux calls on the SAME Element (month, timestep, boundary kind, radiation '
+                        'and reference air vary; layer temperatures carried by the object) vs the stateless Lean model '
+                        'on the current state', classify=cls)
+    chk.direct('energy-oracle(SurfFlux history on one object)', nst, nst,
+               'SurfFluxEnergy statements at every call of every history', mismatches=sbad)
+    chk.assumptions.append('Element.waterStorage is 0 for every element uwg creates (set in __init__, assigned nowhere '
+                           'else): the evaporation branch of SurfFlux is dead and the model follows the else branch; '
+                           'an AST scan of the tree under test checks this on every run, and the elements built by the harness are checked to start at 0')
+
+
+
 def run(chk):
-    chk.proof(MODULE, THEOREMS)
+    chk.proof(MODULE, THEOREMS, extra_modules=[SURF_MODULE])
     if chk.tier == 'thorough':
-        chk.leanchecker([MODULE])
+        chk.leanchecker([MODULE, SURF_MODULE])
     pkg = fracexec.load()
     n = 300 if chk.tier == 'quick' else 3000
     cases = [gen_case(chk.rng, n=nn) for nn in range(2, 41) for _ in (0, 1)]  # every layer count 2..40
@@ -176,5 +481,6 @@ def run(chk):
                    classify=lambda line, impl: line.split(' bc=')[1].split(' ')[0])
     chk.direct('energy-oracle(sequence on one object)', nst, nst, 'C11 statement at every step of every sequence',
                mismatches=seq_bad)
+    run_surfflux(chk, pkg)
     chk.assumptions.append('Element.Conduction is exercised through fracexec (exact rationals); '
                            'double rounding is outside the theorem')
